@@ -132,6 +132,7 @@ def norm_test(F, test):
 
 
 def check(run):
+    rules_userdata(run)
     prog = run.prog
     r1 = run.rule('C19.1', 'every `then` step can fail, for the right reason: it asserts something that depends on its arguments and on the documented source, '
                            'reads that source on every normal path and never reads context.trace')
@@ -427,3 +428,41 @@ def check(run):
         run.check(any(a[0] == '==' and ((a[1].endswith('.name') and a[2] == scen) or (a[2].endswith('.name') and a[1] == scen)) for a in at), r6, rs.short,
                   'reproduces the scenario of the given name', 'condition is %s' % at, ex[0])
         run.check(any(a[0] == 'in' and a[1].endswith('.step_type') and "'given'" in a[2] and "'when'" in a[2] for a in at), r6, rs.short, 'only its given/when steps are re-executed', 'differs', ex[0])
+
+
+def rules_userdata(run):
+    r = run.rule('C19.7', 'execute_bdd hands the statechart, interpreter class, property statecharts and debug flag to the hooks under the very keys the environment reads')
+    wi = run.fn('execute_bdd')
+    W = wi.node
+    written = {}
+    for c in q.calls(W):
+        if isinstance(c.func, ast.Attribute) and c.func.attr == 'update_userdata' and c.args and isinstance(c.args[0], ast.Dict):
+            for k, v in zip(c.args[0].keys, c.args[0].values):
+                if k is not None and q.const_str(k):
+                    written[q.const_str(k)] = v
+    run.floor(len(written), 3, r, 'userdata keys written by execute_bdd')
+    read = {}
+    env = run.tree.modules.get('sismic.bdd.environment')
+    run.anchor(env is not None, r, 'module sismic/bdd/environment.py')
+    for n in ast.walk(env.tree):
+        if isinstance(n, ast.Call) and isinstance(n.func, ast.Attribute) and n.func.attr == 'get' and 'userdata' in q.unparse(n.func.value) and n.args and q.const_str(n.args[0]):
+            read.setdefault(q.const_str(n.args[0]), []).append(n)
+    for k in sorted(set(written) | set(read)):
+        run.check(k in written and k in read, r, 'bdd', "userdata key '%s' written by execute_bdd and read by the hooks" % k,
+                  "key '%s': written %s, read %s" % (k, k in written, k in read), read.get(k, [W])[0] if k in read else W)
+    ps = q.param_names(W)
+    for k, v in written.items():
+        names = {x.id for x in ast.walk(v) if isinstance(x, ast.Name)}
+        run.check(k in names or (k == 'interpreter_klass' and 'interpreter_klass' in names), r, wi.short, "userdata '%s' carries the parameter of the same name" % k,
+                  "'%s' is fed from %s" % (k, sorted(names)), v)
+    # the environment and the predefined steps that behave loads are the ones of sismic.bdd
+    texts = [q.const_str(c.args[0]) for c in q.calls(W) if isinstance(c.func, ast.Attribute) and c.func.attr == 'write' and c.args and q.const_str(c.args[0])]
+    run.check('from sismic.bdd.environment import *' in texts and 'from sismic.bdd.steps import *' in texts, r, wi.short,
+              'behave is given sismic.bdd.environment and sismic.bdd.steps', 'generated files import %s' % texts, W)
+    cli = run.fn('sismic.bdd.__main__:cli')
+    calls_ = [c for c in q.calls(cli.node) if isinstance(c.func, ast.Name) and c.func.id == 'execute_bdd']
+    run.check(len(calls_) == 1, r, cli.short, 'sismic-bdd runs execute_bdd', 'found %d calls' % len(calls_), cli.node)
+    for c in calls_:
+        kw = q.kwargs_of(c)
+        run.check('property_statecharts' in kw and 'step_filepaths' in kw and q.arg(c, 1, 'feature_filepaths') is not None and q.arg(c, 0, 'statechart') is not None, r, cli.short, 'the command line passes features, steps and properties on',
+                  'keywords: %s' % sorted(kw), c)
